@@ -29,7 +29,8 @@ class C09(_BldProp):
     id = "C09"
     required = ["C09.length_field", "C09.overflow_fails", "C09.oversized_value_fails", "C09.oversized_call_fails", "C09.overflow_fails_direct", "C09.build_only_failure"]
     rule = ("random builder programs, set_length inserted at every position of programs with >= 1 write, totals steered to 65534..65537 and "
-            "to the writer guard; non-trivial = distinct programs with >= 1 write and a set_length not in first position, or payload total within 1 of 65535")
+            "to the writer guard; non-trivial = distinct programs with >= 1 write and a set_length not in first position, or payload total within 1 of 65535"
+            " Also: totals 65535..131077 written under every explicit length with the override cleared / changed / first supplied at every later position; each payload kind (Type included) as the write that meets the full writer; batches through four iterator types.")
 
     def programs(self, tier, rng):
         n = 1500 if tier == "quick" else 30000
@@ -241,7 +242,8 @@ class C13(Prop):
     id = "C13"
     required = ["C13.rebuild_raw", "C13.rebuild_items", "C13.rebuild_from_addresses", "C13.augment"]
     rule = ("every generated accepted header (all valid control pairs, every family, well-formed / malformed / empty sections, payloads to 65535) "
-            "rebuilt four ways through the real views and builder; non-trivial = distinct (family, section shape) with a non-empty section")
+            "rebuilt four ways through the real views and builder; non-trivial = distinct (family, section shape) with a non-empty section"
+            " Also: the decoded parts re-emitted with one more TLV and parsed back (augment).")
 
     def gen(self, tier, rng):
         n = 4000 if tier == "quick" else 100000
@@ -304,7 +306,8 @@ class C20(Prop):
     id = "C20"
     required = ["C20.write_appends_encoding", "C20.to_bytes", "C20.int_big_endian", "C20.tlv_pair_same", "C20.oversize_refused", "C20.success_condition", "C20.int_signed", "C20.width_table", "C20.partial_write_exact"]
     rule = ("every integer width at min/max/random, every address kind, TLVs with lengths {0,1,255,256,65535,65536}, sections and slices, "
-            "written into writers pre-filled with {0,1,16,65535,65549..65553} bytes; non-trivial = distinct (payload kind, size class, prefill class)")
+            "written into writers pre-filled with {0,1,16,65535,65549..65553} bytes; non-trivial = distinct (payload kind, size class, prefill class)"
+            " Results of writes that would carry the writer past 65551 bytes are not compared with the model (unpinned); a reported success must have appended the whole encoding.")
 
     PREFILLS = [0, 1, 16, 300, 65535, 65549, 65550, 65551, 65552, 65553]
 
